@@ -38,7 +38,7 @@ def py_to_sc(v):
     if isinstance(v, (bool, np.bool_)):
         return {"t": "bool", "v": bool(v)}
     if isinstance(v, (bytes, np.bytes_)):
-        return {"t": "str", "v": v.decode()}
+        return {"t": "bytes", "v": v.decode("utf-8", "replace")}      # a byte string is NOT the string that was saved
     if isinstance(v, (str, np.str_)):
         return {"t": "str", "v": str(v)}
     if isinstance(v, (int, float, np.integer, np.floating)):
